@@ -5,6 +5,20 @@ from ..report import AnchorMissing
 from . import fscore
 
 
+def _closure_receiver(db, clo):
+    """(parent body, block, receiver operand) of the iterator / Option / Result adaptor the closure is handed to"""
+    par = db.body(clo.parent)
+    if par is None:
+        return None
+    for _, _, st in par.stmts():
+        if st["rv"]["k"] == "agg" and st["rv"].get("def") == clo.name and not st["dst"]["proj"]:
+            cl = st["dst"]["l"]
+            for bi2, t2 in par.calls():
+                if len(t2["args"]) >= 2 and any(flow.op_place(a) is not None and flow.op_place(a)["l"] == cl for a in t2["args"][1:]):
+                    return par, bi2, t2["args"][0]
+    return None
+
+
 def rule_r1(chk, db, conf):
     effs = fscore.effects(db)
     chk.floor("R1", len(effs), 40, "file-system effect call sites in s3s-fs")
@@ -17,18 +31,26 @@ def rule_r1(chk, db, conf):
             n += 1
             c = fscore.classify_path(db, b, t["args"][i], bi, conf)
             key = "%s:%s#%d.%d" % (root.name.replace("s3s_fs::", ""), short(callee_def(t)), bi, i)
+            pb_ = b
+            if b.kind == "Closure" and any(l >= 2 for l, _ in c["params"]) and not (c["conf"] or c["root"] or c["fw"]):
+                # the path comes from the closure's own argument (`entries.try_for_each(|entry| .. remove_file(entry.path()))`): it is an
+                # item of the adaptor's receiver, which is classified where the closure is handed over
+                src = _closure_receiver(db, b)
+                if src is not None:
+                    pb_, pbi_, rop_ = src
+                    c = fscore.classify_path(db, pb_, rop_, pbi_, conf)
             ok = bool(c["conf"]) or c["root"] or bool(c["fw"])
             bad_req = sorted(c["request"])
             # parameters (other than self / the closure env) reached without a confining call in between
             raw_params = []
             for l, pr in c["params"]:
                 names = flow.proj_names(pr)
-                if b.kind != "Closure" and l >= 1 and b.local_name(l) not in ("self",) and not (b.locals[l].startswith("&s3s_fs::fs::FileSystem") or b.locals[l].startswith("&mut s3s_fs::fs::FileWriter") or "FileWriter" in b.locals[l]):
-                    raw_params.append((l, b.local_name(l)))
+                if pb_.kind != "Closure" and l >= 1 and pb_.local_name(l) not in ("self",) and not (pb_.locals[l].startswith("&s3s_fs::fs::FileSystem") or pb_.locals[l].startswith("&mut s3s_fs::fs::FileWriter") or "FileWriter" in pb_.locals[l]):
+                    raw_params.append((l, pb_.local_name(l)))
             if raw_params and not bad_req:
                 # the function is a path-taking helper: its callers carry the obligation
                 for l, nm in raw_params:
-                    obligations.append((root.name, l, "%s flows into %s" % (nm, short(callee_def(t)))))
+                    obligations.append((db.root_of(pb_).name, l, "%s flows into %s" % (nm, short(callee_def(t)))))
                 chk.ok("R1", key, b.loc(bi), {"delegated_to_callers": [nm for _, nm in raw_params]}, nontrivial=False)
                 continue
             what = ""
